@@ -17,7 +17,8 @@ Negative results (the property's "never overflows the stack" / "allocates at mos
 input size" clauses are false of the model of the current code):
 * `depth_unbounded`     for every `d` an accepted input of `9 d + 21` bytes needs recursion depth `d + 1`;
 * `alloc_superlinear`   for every `d` an input of `9 d` bytes makes the reader request ≥ `4 d (d − 1)` bytes.
-Also: `ub_reachable` — a 59-byte input reaches the undefined behaviour in `CompoundCurve::validateConstruction`.
+Also: `empty_section_rejected`, `checkContig_nonempty`, `compound_sections_nonempty` — the former undefined behaviour in
+`CompoundCurve::validateConstruction` (fixed in /repo 82860eb92) is a clean reject and `front()/back()` only see non-empty sequences.
 -/
 namespace GeosModel.C11.WKB
 open GeosModel GeosModel.WKB
@@ -89,9 +90,50 @@ def ubInput : List UInt8 :=
    0, 0, 0, 0, 0, 0, 0, 0, 0, 0, 0, 0, 0, 0, 0, 0,
    0, 0, 0, 0, 0, 0, 0, 0, 0, 0, 0, 0, 0, 0, 0, 0]
 
-/-- **undefined behaviour is reachable from bytes**: on `ubInput` the C++ reader reaches
-`CompoundCurve::validateConstruction`, which calls `back()` on the empty first section. -/
-theorem ub_reachable (arc : ArcOracle) : read arc ubInput = .error .ubEmptySection := by rfl
+/-- the input that used to reach `back()` of an empty section (undefined behaviour, SIGSEGV) is now a
+clean constructor reject (/repo 82860eb92) -/
+theorem empty_section_rejected (arc : ArcOracle) : read arc ubInput = .error .construct := by rfl
+
+/-- `CompoundCurve::validateConstruction` succeeds only if, as soon as there are two sections, every
+section is non-empty: `front()`/`back()` are only ever applied to non-empty sequences -/
+theorem checkContig_nonempty : ∀ (gs : List G), checkContig gs = .ok () → 2 ≤ gs.length →
+    ∀ g ∈ gs, (seqOf g).pts ≠ []
+  | [], _, h2 => by simp at h2
+  | [_], _, h2 => by simp at h2
+  | a :: b :: rest, h, _ => by
+    simp only [checkContig] at h
+    cases ha : (seqOf a).pts.getLast? with
+    | none => simp [ha] at h
+    | some e =>
+      cases hb : (seqOf b).pts.head? with
+      | none => simp [ha, hb] at h
+      | some s =>
+        simp only [ha, hb] at h
+        by_cases hc : Coord.eq2D s e = true
+        · simp only [hc, if_true] at h
+          intro g hg
+          simp only [List.mem_cons] at hg
+          rcases hg with rfl | hg
+          · intro hn; simp [hn] at ha
+          · cases rest with
+            | nil =>
+              simp only [List.not_mem_nil, or_false] at hg
+              subst hg; intro hn; simp [hn] at hb
+            | cons c rest' =>
+              exact checkContig_nonempty (b :: c :: rest') h (by simp) g (by simpa [List.mem_cons] using hg)
+        · simp [hc] at h
+
+/-- **the unguarded `front()`/`back()` is never reached with an empty sequence**: in whatever the reader
+returns, a compound curve with at least two sections has no empty section (at any nesting level, since
+`reject_or_wf` gives `WFG` of the whole tree and `WFG` of a compound curve contains `checkContig`). -/
+theorem compound_sections_nonempty (arc : ArcOracle) (gs : List G) (h : WFG arc (.compoundCurve gs) = true)
+    (h2 : 2 ≤ gs.length) : ∀ g ∈ gs, (seqOf g).pts ≠ [] := by
+  simp only [WFG, Bool.and_eq_true] at h
+  have hc : checkContig gs = .ok () := by
+    cases hx : checkContig gs with
+    | ok u => rfl
+    | error e => simp [hx, errOk] at h
+  exact checkContig_nonempty gs hc h2
 
 /-! non-vacuity -/
 example : ∃ bs g, read (fun _ => false) bs = .ok g := by
